@@ -31,7 +31,7 @@ func AddDeleteChildren(index configapi.Index, changeValues map[string]*configapi
 		// if this pathValue has to be deleted, then we need to search for all children of this pathValue
 		if changeValue.Deleted {
 			for _, value := range configStore {
-				if isChildPath(value.Path, changeValue.Path) {
+				if IsChildPath(value.Path, changeValue.Path) {
 					updChangeValues[value.Path] = value
 					updChangeValues[value.Path].Index = index
 					updChangeValues[value.Path].Deleted = true
@@ -49,8 +49,8 @@ func AddDeleteChildren(index configapi.Index, changeValues map[string]*configapi
 	return updChangeValues
 }
 
-// isChildPath returns true if the path lies beneath the parent path, at a path element (or list key) boundary
-func isChildPath(path string, parent string) bool {
+// IsChildPath returns true if the path lies beneath the parent path, at a path element (or list key) boundary
+func IsChildPath(path string, parent string) bool {
 	return len(path) > len(parent) && strings.HasPrefix(path, parent) &&
 		(path[len(parent)] == '/' || path[len(parent)] == '[')
 }
